@@ -187,15 +187,7 @@ def bernoulli_descr(repo, usig, items):
             and isinstance(loop.iter, ast.Call) and ast.unparse(loop.iter) == 'range(%s)' % size):
         raise TranslationError(R_DIST, loop, 'expected `for i in range(%s)`' % size)
     i = loop.target.id
-    if len(loop.body) != 1 or not isinstance(loop.body[0], ast.If):
-        raise TranslationError(R_DIST, loop, 'loop body must be one if/else')
-    iff = loop.body[0]
-    t = iff.test
-    if not (isinstance(t, ast.Compare) and len(t.ops) == 1 and len(t.comparators) == 1):
-        raise TranslationError(R_DIST, t, 'expected a single comparison')
     ops = {ast.Lt: 'CmpLt', ast.LtE: 'CmpLe', ast.Gt: 'CmpGt', ast.GtE: 'CmpGe'}
-    if type(t.ops[0]) not in ops:
-        raise TranslationError(R_DIST, t, 'unsupported comparison operator')
 
     def is_draw(n):
         return (isinstance(n, ast.Subscript) and isinstance(n.value, ast.Name) and n.value.id == drw
@@ -203,35 +195,73 @@ def bernoulli_descr(repo, usig, items):
 
     def is_prob(n):
         return isinstance(n, ast.Name) and n.id == prob
-    if is_draw(t.left) and is_prob(t.comparators[0]):
-        left = True
-    elif is_prob(t.left) and is_draw(t.comparators[0]):
-        left = False
-    else:
+
+    def test_of(t):
+        """condition -> (comparison node, draw on the left?, negated?);  `not c` swaps the two branches"""
+        neg = False
+        while isinstance(t, ast.UnaryOp) and isinstance(t.op, ast.Not):
+            neg = not neg
+            t = t.operand
+        if not (isinstance(t, ast.Compare) and len(t.ops) == 1 and len(t.comparators) == 1):
+            raise TranslationError(R_DIST, t, 'expected a single comparison')
+        if type(t.ops[0]) not in ops:
+            raise TranslationError(R_DIST, t, 'unsupported comparison operator')
+        if is_draw(t.left) and is_prob(t.comparators[0]):
+            return t, True, neg
+        if is_prob(t.left) and is_draw(t.comparators[0]):
+            return t, False, neg
         raise TranslationError(R_DIST, t, 'comparison must be between %s[%s] and %s' % (drw, i, prob))
+
+    def is_slot(tg):
+        return (isinstance(tg, ast.Subscript) and isinstance(tg.value, ast.Name) and tg.value.id == arr
+                and isinstance(tg.slice, ast.Name) and tg.slice.id == i)
+
+    def lit(v):
+        v = _num(v)
+        return int(v) if v is not None and v == int(v) else None
 
     def store(stmts):
         if len(stmts) != 1:
             return None
         s = stmts[0]
-        if not (isinstance(s, ast.Assign) and len(s.targets) == 1 and isinstance(s.targets[0], ast.Subscript)
-                and isinstance(s.targets[0].value, ast.Name) and s.targets[0].value.id == arr
-                and isinstance(s.targets[0].slice, ast.Name) and s.targets[0].slice.id == i):
+        if not (isinstance(s, ast.Assign) and len(s.targets) == 1 and is_slot(s.targets[0])):
             return None
-        v = _num(s.value)
-        if v is None or v != int(v):
-            return None
-        return int(v)
-    then, els = store(iff.body), store(iff.orelse)
-    if then is None:
-        raise TranslationError(R_DIST, iff, 'then-branch must store an integer literal into %s[%s]' % (arr, i))
-    if els is None:
-        if iff.orelse:
-            raise TranslationError(R_DIST, iff, 'else-branch must store an integer literal into %s[%s]' % (arr, i))
-        init = ast.unparse(assigns[arr].func)
-        els = {'np.zeros': 0, 'np.ones': 1}.get(init)
+        return lit(s.value)
+    if len(loop.body) != 1:
+        raise TranslationError(R_DIST, loop, 'loop body must be one if/else or one conditional assignment')
+    st = loop.body[0]
+    if isinstance(st, ast.If):
+        # if <test>: A[i] = c1  else: A[i] = c0
+        t, left, neg = test_of(st.test)
+        then, els = store(st.body), store(st.orelse)
+        if then is None:
+            raise TranslationError(R_DIST, st, 'then-branch must store an integer literal into %s[%s]' % (arr, i))
         if els is None:
-            raise TranslationError(R_DIST, iff, 'no else-branch and the array is not initialised')
+            if st.orelse:
+                raise TranslationError(R_DIST, st, 'else-branch must store an integer literal into %s[%s]' % (arr, i))
+            init = ast.unparse(assigns[arr].func)
+            els = {'np.zeros': 0, 'np.ones': 1}.get(init)
+            if els is None:
+                raise TranslationError(R_DIST, st, 'no else-branch and the array is not initialised')
+    elif isinstance(st, ast.Assign) and len(st.targets) == 1 and is_slot(st.targets[0]):
+        v = st.value
+        if isinstance(v, ast.IfExp):
+            # A[i] = c1 if <test> else c0
+            t, left, neg = test_of(v.test)
+            then, els = lit(v.body), lit(v.orelse)
+            if then is None or els is None:
+                raise TranslationError(R_DIST, st, 'both arms of the conditional expression must be integer literals')
+        elif (isinstance(v, ast.Call) and isinstance(v.func, ast.Name) and v.func.id in ('int', 'float')
+              and len(v.args) == 1 and not v.keywords):
+            # A[i] = int(<test>) / float(<test>): True -> 1, False -> 0
+            t, left, neg = test_of(v.args[0])
+            then, els = 1, 0
+        else:
+            raise TranslationError(R_DIST, st, 'unrecognised value stored into %s[%s]' % (arr, i))
+    else:
+        raise TranslationError(R_DIST, st, 'loop body must be one if/else or one conditional assignment into %s[%s]' % (arr, i))
+    if neg:
+        then, els = els, then
     if not (isinstance(ret, ast.Return) and isinstance(ret.value, ast.Name) and ret.value.id == arr):
         raise TranslationError(R_DIST, ret, 'must return the result array `%s`' % arr)
     items.append({'file': R_DIST, 'line': t.lineno, 'text': 'if %s: %s[%s] = %d else %d ; draws = %s' % (
